@@ -39,7 +39,7 @@ Print Assumptions C13_values_roundtrip.
 (* cells: written type by type in the mesh's order, read back per type in ascending type id; every type of the mesh
    that has cells comes back with exactly its cells in the same order, and nothing else comes back *)
 Theorem C13_vtu_cells_write_read : forall g : list (N * list (list N)),
-  NoDup (map fst g) -> rectangular g ->
+  NoDup (map fst g) ->
   let r := regroup_cells (writer_connectivity g) (writer_offsets g) (writer_types g) in
   ascending (map fst r) /\
   (forall t cs, In (t, cs) g -> cs <> [] -> In (t, cs) r) /\
@@ -74,7 +74,7 @@ Print Assumptions C13_csv_structure_roundtrip.
 
 (* ---- the whole file (Model/VtuFile.v): VTUWriter.write followed by VTUReader, composed from the parts above.
    For every data set whose arrays fit their types (wf_vdata: values within the range of their numeric type, rows of the
-   declared number of components, byte counts below 2^64, distinct cell types with a uniform corner count per type),
+   declared number of components, byte counts below 2^64, distinct cell types; the cells of one type may differ in their corner counts, as polygons do),
    reading the written file succeeds and hands out: the points and every point field exactly as given; the cells per cell
    type (ascending type id; every type that has cells, with exactly its cells in the mesh's order; nothing else); and for
    every cell field, per cell type, exactly the rows given for that type. *)
